@@ -12,7 +12,7 @@ from .arrdom import AArr, ArrInterp
 from .resultrun import Tagged, build_edge_case_handler, metric_objs
 
 INFO = {
-    "explanation": "PanopticaResult.__init__ and _calc_global_bin_metric are run abstractly with abstract label arrays, symbolic per-metric edge-case handlers and split emptiness tests (4 combinations of empty prediction / empty reference): (R13.1) the metric kernel receives the !=0-binarised *copies* of the full reference and prediction arrays in their own parameter slots, without narrowing casts, independent of tp/lists; (R13.2) empty prediction / empty reference / both empty yield the handler's EMPTY_PRED / EMPTY_REF / NO_INSTANCES value of that metric; (R13.3) a metric not requested is not computed; requested ones are stored under global_bin_<name>. Further: R13.2 also with a handler that prescribes None; delegated R05.4/R05.6 (dtype before labelling), R10.1/R10.3 (cropped once, crop covers both), R15.8.",
+    "explanation": "Delegated (round 4): R08.4/R01.2 - on the zero-instance shortcut and through the result stage the prediction/reference arrays and counts reach the result uncrossed (the global metrics' empty-side handling depends on which side is which). PanopticaResult.__init__ and _calc_global_bin_metric are run abstractly with abstract label arrays, symbolic per-metric edge-case handlers and split emptiness tests (4 combinations of empty prediction / empty reference): (R13.1) the metric kernel receives the !=0-binarised *copies* of the full reference and prediction arrays in their own parameter slots, without narrowing casts, independent of tp/lists; (R13.2) empty prediction / empty reference / both empty yield the handler's EMPTY_PRED / EMPTY_REF / NO_INSTANCES value of that metric; (R13.3) a metric not requested is not computed; requested ones are stored under global_bin_<name>. Further: R13.2 also with a handler that prescribes None; delegated R05.4/R05.6 (dtype before labelling), R10.1/R10.3 (cropped once, crop covers both), R15.8.",
     "trusted_base": ["Python semantics of the modelled AST subset", "numpy: copy/astype create new arrays, x[x!=0]=1 binarises in place, sum()/any()/count_nonzero decide emptiness of a non-negative array"],
     "assumptions": ["label arrays are non-negative integer arrays (checked by the pair classes)"],
     "not_decided": ["the metric values themselves (C06/C07)"],
@@ -80,6 +80,14 @@ def check(ctx: Ctx):
     from . import c03 as _c03
 
     _c03._guarded(ctx, "R15.8", _c15.check_param_aliasing)
+    # "prediction empty / reference empty": the arrays (and counts) reach the result uncrossed also on
+    # the zero-instance shortcut and through the pipeline's result stage (R08.4, R01.2)
+    from . import c01 as _c01
+    from . import c08 as _c08
+
+    _c03._guarded(ctx, "R08.4", _c08.check_zero_helper)
+    _c03._guarded(ctx, "R08.4", _c08.check_pipeline_typestate)
+    _c03._guarded(ctx, "R01.2", _c01.check_pipeline)
 
 
 def check_global(ctx: Ctx):
